@@ -28,7 +28,8 @@ from xeofs.utils.io import _desanitize_attrs_nc, _sanitize_attrs_nc
 
 PROP = "C13"
 TAGS = {"C13"}
-QUICK = [("EOF", True, False, True), ("POP", True, False, True), ("MCA", True, False, True), ("EOF", False, True, False)]
+QUICK = [("EOF", True, False, True), ("POP", True, False, True), ("MCA", True, False, True), ("EOF", False, True, False),
+         ("POP", False, True, False)]       # deferred sorting: a snapshot taken before compute() holds unsorted modes
 THOROUGH = QUICK + [("CPCCA", True, False, True), ("SparsePCA", True, False, True), ("HilbertEOF", True, False, True), ("OPA", True, False, True),
                     ("ExtendedEOF", True, False, True), ("POP", False, True, False)]
 DEVS = [("CapSorted", "DeserializeDropsSorted")]
